@@ -20,7 +20,7 @@ From Coq Require Import String.
 From Sakura.Model Require Import Base Cursor Length Event Song Token LoopMachine LexCore RunCore Compile Script.
 From Sakura.Model Require Expr.
 From Sakura.Spec Require Import ScriptSem.
-From Sakura.Proofs Require Import ScriptP.
+From Sakura.Proofs Require Import ScriptP ScriptCorP.
 Open Scope Z_scope.
 Open Scope list_scope.
 
@@ -377,3 +377,223 @@ Print Assumptions C11_statement_call_in_caller_scope.
 Print Assumptions C11_if_one_branch_tokens.
 Print Assumptions C11_call_named_tokens.
 Print Assumptions C11_statement_call_tokens.
+
+(* ================================================================================================ *)
+(* PART 2 - the corollaries at full strength (proofs/ScriptCorP.v): each one on the meaning (any language, any block        *)
+(* semantics `blk` one level down, or the semantics `sem` itself at any budget n) and, through C11_exec_vs_sem, on the      *)
+(* exec() machine of the model (ML / funs_of ft / emb: see the head of this file).  Abbreviations from ScriptCorP:          *)
+(*   mpasses ft n, mfpasses ft n, mstraight ft n, mfstraight ft n, mrets ft n = passes / fpasses / straight / fstraight /    *)
+(*   rets of the language ML with the functions funs_of ft and the blocks sem ML (funs_of ft) n;  mfill = fill for ML.       *)
+(* ================================================================================================ *)
+
+(* ------------------------------------------------------------------------------------------------ *)
+(* 2.1 loops are their unrolled text                                                                  *)
+Section Unroll2.
+  Variables Name Atom Op Val World Bnd FId Err : Type.
+  Variable L : lang Name Atom Op Val World Bnd FId Err.
+  Variable funs : FId -> option (fundef Name Atom Op Val FId).
+  Notation gcfg := (cfg Name World Bnd).
+
+  (* FOR(init; c; inc){body} whose test holds exactly k times - ANY k within the limit, test without effect, bodies and increments
+     running to their ends - means  init; body; inc; body; inc; ... (k times)  (WHILE: C11_loop_unroll_text) *)
+  Theorem C11_for_unroll_text : forall n init cnd inc body line k (c c0 ck : gcfg) v,
+    sem L funs n init c = Fin (Normal, c0) ->
+    fstraight Name Atom Op Val World Bnd FId Err L funs n cnd inc body k c0 ck -> (k <= l_limit L)%nat ->
+    eval_opt L funs (sem L funs n) (l_vzero L) cnd ck = Fin (v, ck) -> l_truth L v = false ->
+    exec_stmt L funs (sem L funs n) (For init cnd inc body line) c
+    = sem L funs (S n) (init ++ reps Name Atom Op FId k (body ++ inc)) c.
+  Proof. exact (for_unroll_text Name Atom Op Val World Bnd FId Err L funs). Qed.
+End Unroll2.
+
+(* the machine: exec() on the WHILE token = exec() on the body, k times in sequence - every k <= 10000 *)
+Theorem C11_loop_unroll_exec : forall ft, ft_ok ft = true -> forall n cnd body line k m (c ck : cfg (list ch) song vv) v,
+  wf c -> toks_ok body = true ->
+  mstraight ft n (oexpr_of cnd) (prog_of body) k c ck -> (k <= m_N)%nat ->
+  eval_opt ML (funs_of ft) (sem ML (funs_of ft) n) (Expr.SInt 0) (oexpr_of cnd) ck = Fin (v, ck) -> Expr.to_b v = false ->
+  exec_s (S n) [SWhile cnd body line] (Ok (emb ft m c)) = Nat.iter k (exec_s n body) (Ok (emb ft m c)).
+Proof. exact while_unroll_exec. Qed.
+(* ... = exec() on the body WRITTEN k times, when that text still is a block (length below the fuel of one exec() loop) *)
+Theorem C11_loop_unroll_exec_text : forall ft, ft_ok ft = true -> forall n cnd body line k m (c ck : cfg (list ch) song vv) v,
+  wf c -> toks_ok body = true -> toks_ok (reps_t k body) = true ->
+  mstraight ft n (oexpr_of cnd) (prog_of body) k c ck -> (k <= m_N)%nat ->
+  eval_opt ML (funs_of ft) (sem ML (funs_of ft) n) (Expr.SInt 0) (oexpr_of cnd) ck = Fin (v, ck) -> Expr.to_b v = false ->
+  exec_s (S n) [SWhile cnd body line] (Ok (emb ft m c)) = exec_s (S n) (reps_t k body) (Ok (emb ft m c)).
+Proof. exact while_unroll_exec_text. Qed.
+(* FOR on the machine: init, then k x (body, increment) *)
+Theorem C11_for_unroll_exec : forall ft, ft_ok ft = true -> forall n init cnd inc body line k m (c c0 ck : cfg (list ch) song vv) v,
+  wf c -> toks_ok init = true -> toks_ok inc = true -> toks_ok body = true ->
+  sem ML (funs_of ft) n (prog_of init) c = Fin (Normal, c0) ->
+  mfstraight ft n (oexpr_of cnd) (prog_of inc) (prog_of body) k c0 ck -> (k <= m_N)%nat ->
+  eval_opt ML (funs_of ft) (sem ML (funs_of ft) n) (Expr.SInt 0) (oexpr_of cnd) ck = Fin (v, ck) -> Expr.to_b v = false ->
+  exec_s (S n) [SFor init cnd inc body line] (Ok (emb ft m c))
+  = Nat.iter k (fun s => exec_s n inc (exec_s n body s)) (exec_s n init (Ok (emb ft m c))).
+Proof. exact for_unroll_exec. Qed.
+Theorem C11_for_unroll_exec_text : forall ft, ft_ok ft = true -> forall n init cnd inc body line k m (c c0 ck : cfg (list ch) song vv) v,
+  wf c -> toks_ok init = true -> toks_ok inc = true -> toks_ok body = true -> toks_ok (init ++ reps_t k (body ++ inc)) = true ->
+  sem ML (funs_of ft) n (prog_of init) c = Fin (Normal, c0) ->
+  mfstraight ft n (oexpr_of cnd) (prog_of inc) (prog_of body) k c0 ck -> (k <= m_N)%nat ->
+  eval_opt ML (funs_of ft) (sem ML (funs_of ft) n) (Expr.SInt 0) (oexpr_of cnd) ck = Fin (v, ck) -> Expr.to_b v = false ->
+  exec_s (S n) [SFor init cnd inc body line] (Ok (emb ft m c)) = exec_s (S n) (init ++ reps_t k (body ++ inc)) (Ok (emb ft m c)).
+Proof. exact for_unroll_exec_text. Qed.
+
+(* ------------------------------------------------------------------------------------------------ *)
+(* 2.2 BREAK / CONTINUE and the innermost loop                                                        *)
+Section Innermost2.
+  Variables Name Atom Op Val World Bnd FId Err : Type.
+  Variable L : lang Name Atom Op Val World Bnd FId Err.
+  Variable funs : FId -> option (fundef Name Atom Op Val FId).
+  Variable blk : list (stmt Name Atom Op FId) -> cfg Name World Bnd -> result Err (signal * cfg Name World Bnd).
+  Notation gcfg := (cfg Name World Bnd).
+
+  (* BREAK ends the innermost loop ONLY: a WHILE standing between `pre` and `post` in a block (the body of an enclosing loop, a
+     branch, a function body) whose pass j+1 raises BREAK - from any depth of IFs inside its body - ends there and the block goes
+     on with `post` in the configuration the BREAK was raised in *)
+  Theorem C11_break_innermost_block : forall pre cnd body line post j (c c1 cj : gcfg) v c2 c3,
+    exec_seq L funs blk pre c = Fin (Normal, c1) ->
+    passes Name Atom Op Val World Bnd FId Err L funs blk cnd body j c1 cj -> (j < l_limit L)%nat ->
+    eval_opt L funs blk (l_vzero L) cnd cj = Fin (v, c2) -> l_truth L v = true -> blk body c2 = Fin (Brk, c3) ->
+    exec_seq L funs blk (pre ++ While cnd body line :: post) c = exec_seq L funs blk post c3.
+  Proof. exact (break_innermost_while Name Atom Op Val World Bnd FId Err L funs blk). Qed.
+  (* ... a FOR: the increment of the pass that raised BREAK is not run *)
+  Theorem C11_break_innermost_for_block : forall pre init cnd inc body line post j (c c1 c1' cj : gcfg) v c2 c3,
+    exec_seq L funs blk pre c = Fin (Normal, c1) -> blk init c1 = Fin (Normal, c1') ->
+    fpasses Name Atom Op Val World Bnd FId Err L funs blk cnd inc body j c1' cj -> (j < l_limit L)%nat ->
+    eval_opt L funs blk (l_vzero L) cnd cj = Fin (v, c2) -> l_truth L v = true -> blk body c2 = Fin (Brk, c3) ->
+    exec_seq L funs blk (pre ++ For init cnd inc body line :: post) c = exec_seq L funs blk post c3.
+  Proof. exact (break_innermost_for Name Atom Op Val World Bnd FId Err L funs blk). Qed.
+
+  (* CONTINUE - raised at any depth of IFs in the body - ends the PASS of the innermost loop: the loop goes on with its next test;
+     in a FOR the increment runs first *)
+  Theorem C11_continue_innermost : forall cnd body line left (c : gcfg) v c1 c2,
+    eval_opt L funs blk (l_vzero L) cnd c = Fin (v, c1) -> l_truth L v = true -> blk body c1 = Fin (Cont, c2) ->
+    while_sem L funs blk (S left) cnd body line c = while_sem L funs blk left cnd body line c2.
+  Proof. exact (continue_innermost_while Name Atom Op Val World Bnd FId Err L funs blk). Qed.
+  Theorem C11_continue_innermost_for : forall cnd inc body line left (c : gcfg) v c1 c2 c3,
+    eval_opt L funs blk (l_vzero L) cnd c = Fin (v, c1) -> l_truth L v = true -> blk body c1 = Fin (Cont, c2) ->
+    blk inc c2 = Fin (Normal, c3) ->
+    for_sem L funs blk (S left) cnd inc body line c = for_sem L funs blk left cnd inc body line c3.
+  Proof. exact (continue_innermost_for Name Atom Op Val World Bnd FId Err L funs blk). Qed.
+
+  (* whatever its passes raise, the block around a WHILE sees it end normally and goes on behind it - or sees a RETURN *)
+  Theorem C11_loop_signals_stay_inside : forall pre cnd body line post (c c1 : gcfg) sg c2,
+    exec_seq L funs blk pre c = Fin (Normal, c1) -> exec_stmt L funs blk (While cnd body line) c1 = Fin (sg, c2) ->
+    (sg = Normal /\ exec_seq L funs blk (pre ++ While cnd body line :: post) c = exec_seq L funs blk post c2)
+    \/ (sg = Ret /\ exec_seq L funs blk (pre ++ While cnd body line :: post) c = Fin (Ret, c2)).
+  Proof. exact (loop_signals_stay_inside Name Atom Op Val World Bnd FId Err L funs blk). Qed.
+  (* a FOR lets neither out provided its initialiser and increment parts raise nothing ... *)
+  Theorem C11_for_signals : forall init cnd inc body line,
+    (forall c sg c', blk init c = Fin (sg, c') -> sg = Normal) -> (forall c sg c', blk inc c = Fin (sg, c') -> sg = Normal) ->
+    forall (c : gcfg) sg c', exec_stmt L funs blk (For init cnd inc body line) c = Fin (sg, c') -> sg = Normal \/ sg = Ret.
+  Proof. exact (for_stmt_signals Name Atom Op Val World Bnd FId Err L funs blk). Qed.
+End Innermost2.
+
+Section Innermost3.
+  Variables Name Atom Op Val World Bnd FId Err : Type.
+  Variable L : lang Name Atom Op Val World Bnd FId Err.
+  Variable funs : FId -> option (fundef Name Atom Op Val FId).
+  Notation gcfg := (cfg Name World Bnd).
+
+  (* ... which is the case when they consist of leaves, PRINTs, declarations, assignments, X++ and call statements *)
+  Theorem C11_for_plain_signals : forall n init cnd inc body line (c : gcfg) sg c',
+    forallb (plain_stmt Name Atom Op FId) init = true -> forallb (plain_stmt Name Atom Op FId) inc = true ->
+    exec_stmt L funs (sem L funs n) (For init cnd inc body line) c = Fin (sg, c') -> sg = Normal \/ sg = Ret.
+  Proof. exact (for_plain_signals Name Atom Op Val World Bnd FId Err L funs). Qed.
+
+  (* both levels: the inner WHILE is left by its BREAK, the body of the OUTER WHILE goes on with `post`, and when that ends normally
+     (or with the outer loop's own CONTINUE) the outer loop goes on with its next test *)
+  Theorem C11_break_innermost_nested : forall n cndO pre cndI bodyI lineI post lineO left j (c : gcfg) vO c0 c1 cj v c2 c3 sg c4,
+    eval_opt L funs (sem L funs (S n)) (l_vzero L) cndO c = Fin (vO, c0) -> l_truth L vO = true ->
+    exec_seq L funs (sem L funs n) pre c0 = Fin (Normal, c1) ->
+    passes Name Atom Op Val World Bnd FId Err L funs (sem L funs n) cndI bodyI j c1 cj -> (j < l_limit L)%nat ->
+    eval_opt L funs (sem L funs n) (l_vzero L) cndI cj = Fin (v, c2) -> l_truth L v = true -> sem L funs n bodyI c2 = Fin (Brk, c3) ->
+    exec_seq L funs (sem L funs n) post c3 = Fin (sg, c4) -> (sg = Normal \/ sg = Cont) ->
+    while_sem L funs (sem L funs (S n)) (S left) cndO (pre ++ While cndI bodyI lineI :: post) lineO c
+    = while_sem L funs (sem L funs (S n)) left cndO (pre ++ While cndI bodyI lineI :: post) lineO c4.
+  Proof. exact (break_innermost_nested Name Atom Op Val World Bnd FId Err L funs). Qed.
+
+  (* CONTINUE skips the rest of the body WHATEVER it is: the loop with body `pre; CONTINUE; post` means the loop with body `pre`
+     (for every allowance, every configuration; FOR: same increment, which still runs) *)
+  Theorem C11_continue_skips_text : forall n cnd pre post line (c : gcfg),
+    exec_stmt L funs (sem L funs n) (While cnd (pre ++ Continue :: post) line) c = exec_stmt L funs (sem L funs n) (While cnd pre line) c.
+  Proof. exact (continue_text_stmt Name Atom Op Val World Bnd FId Err L funs). Qed.
+  Theorem C11_continue_skips_text_for : forall n init cnd inc pre post line (c : gcfg),
+    exec_stmt L funs (sem L funs n) (For init cnd inc (pre ++ Continue :: post) line) c
+    = exec_stmt L funs (sem L funs n) (For init cnd inc pre line) c.
+  Proof. exact (continue_text_for_stmt Name Atom Op Val World Bnd FId Err L funs). Qed.
+End Innermost3.
+
+(* the machine: after the BREAK exec() is at the token behind the inner loop with break_flag = 0 *)
+Theorem C11_break_innermost_exec : forall ft, ft_ok ft = true ->
+  forall n pre cnd body line post j m (c c1 cj : cfg (list ch) song vv) v c2 c3,
+  wf c -> toks_ok (pre ++ SWhile cnd body line :: post) = true ->
+  exec_seq ML (funs_of ft) (sem ML (funs_of ft) n) (prog_of pre) c = Fin (Normal, c1) ->
+  mpasses ft n (oexpr_of cnd) (prog_of body) j c1 cj -> (j < m_N)%nat ->
+  eval_opt ML (funs_of ft) (sem ML (funs_of ft) n) (Expr.SInt 0) (oexpr_of cnd) cj = Fin (v, c2) -> Expr.to_b v = true ->
+  sem ML (funs_of ft) n (prog_of body) c2 = Fin (Brk, c3) ->
+  exec_s (S n) (pre ++ SWhile cnd body line :: post) (Ok (emb ft m c)) = exec_s (S n) post (Ok (emb ft m c3)) /\ wf c3.
+Proof. exact break_innermost_exec. Qed.
+Theorem C11_break_innermost_for_exec : forall ft, ft_ok ft = true ->
+  forall n pre init cnd inc body line post j m (c c1 c1' cj : cfg (list ch) song vv) v c2 c3,
+  wf c -> toks_ok (pre ++ SFor init cnd inc body line :: post) = true ->
+  exec_seq ML (funs_of ft) (sem ML (funs_of ft) n) (prog_of pre) c = Fin (Normal, c1) ->
+  sem ML (funs_of ft) n (prog_of init) c1 = Fin (Normal, c1') ->
+  mfpasses ft n (oexpr_of cnd) (prog_of inc) (prog_of body) j c1' cj -> (j < m_N)%nat ->
+  eval_opt ML (funs_of ft) (sem ML (funs_of ft) n) (Expr.SInt 0) (oexpr_of cnd) cj = Fin (v, c2) -> Expr.to_b v = true ->
+  sem ML (funs_of ft) n (prog_of body) c2 = Fin (Brk, c3) ->
+  exec_s (S n) (pre ++ SFor init cnd inc body line :: post) (Ok (emb ft m c)) = exec_s (S n) post (Ok (emb ft m c3)) /\ wf c3.
+Proof. exact break_innermost_for_exec. Qed.
+(* the machine never executes the tokens behind a CONTINUE of a loop body: the loop with them is the loop without them *)
+Theorem C11_continue_skips_exec : forall ft, ft_ok ft = true -> forall n cnd pre post line m (c : cfg (list ch) song vv),
+  wf c -> toks_ok (pre ++ SContinue :: post) = true ->
+  sem ML (funs_of ft) (S n) (prog_of [SWhile cnd pre line]) c <> Stuck ->
+  exec_s (S n) [SWhile cnd (pre ++ SContinue :: post) line] (Ok (emb ft m c)) = exec_s (S n) [SWhile cnd pre line] (Ok (emb ft m c)).
+Proof. exact continue_skips_exec. Qed.
+Theorem C11_continue_skips_for_exec : forall ft, ft_ok ft = true -> forall n init cnd inc pre post line m (c : cfg (list ch) song vv),
+  wf c -> toks_ok init = true -> toks_ok inc = true -> toks_ok (pre ++ SContinue :: post) = true ->
+  sem ML (funs_of ft) (S n) (prog_of [SFor init cnd inc pre line]) c <> Stuck ->
+  exec_s (S n) [SFor init cnd inc (pre ++ SContinue :: post) line] (Ok (emb ft m c))
+  = exec_s (S n) [SFor init cnd inc pre line] (Ok (emb ft m c)).
+Proof. exact continue_skips_for_exec. Qed.
+
+(* REFUTED for one shape: BREAK / CONTINUE written in the INCREMENT slot of a FOR are not confined to that FOR.  The FOR statement
+   ends with the flag still raised (first theorem: the model on `FOR(INT I=0;I<5;BREAK){ PRINT(I) }`), so the enclosing WHILE is
+   ended too (second: `X++ PRINT(X)` never run, the log is `0`, `99`).  /repo does the same on both sources. *)
+Theorem C11_for_increment_break_refuted :
+  match lex_script src_for_inc_break with
+  | Ok ([_; SFor init cnd inc body line], ls) =>
+      inc = [SCore (TLineNo 0); SBreak] /\
+      exists c', exec_stmt ML (funs_of (sl_funcs ls)) (sem ML (funs_of (sl_funcs ls)) 2)
+                   (For (prog_of init) (oexpr_of cnd) (prog_of inc) (prog_of body) line) (cfg_after_lex ls) = Fin (Brk, c')
+                 /\ logs_str (s_logs (world c')) = zs "[PRINT](0) 0"
+  | _ => False
+  end.
+Proof. exact for_increment_break_refuted. Qed.
+Theorem C11_for_increment_break_escapes :
+  match compile_script src_for_inc_break_nested with
+  | Ok (_, log) => log = zs "[PRINT](0) 0" ++ [10] ++ zs "[PRINT](0) 99"
+  | _ => False
+  end.
+Proof. exact for_increment_break_escapes. Qed.
+
+
+Print Assumptions C11_for_unroll_text.
+Print Assumptions C11_loop_unroll_exec.
+Print Assumptions C11_loop_unroll_exec_text.
+Print Assumptions C11_for_unroll_exec.
+Print Assumptions C11_for_unroll_exec_text.
+Print Assumptions C11_break_innermost_block.
+Print Assumptions C11_break_innermost_for_block.
+Print Assumptions C11_continue_innermost.
+Print Assumptions C11_continue_innermost_for.
+Print Assumptions C11_loop_signals_stay_inside.
+Print Assumptions C11_for_signals.
+Print Assumptions C11_for_plain_signals.
+Print Assumptions C11_break_innermost_nested.
+Print Assumptions C11_continue_skips_text.
+Print Assumptions C11_continue_skips_text_for.
+Print Assumptions C11_break_innermost_exec.
+Print Assumptions C11_break_innermost_for_exec.
+Print Assumptions C11_continue_skips_exec.
+Print Assumptions C11_continue_skips_for_exec.
+Print Assumptions C11_for_increment_break_refuted.
+Print Assumptions C11_for_increment_break_escapes.
